@@ -5,6 +5,7 @@
 #include "../engine/engine.h"
 #include "../models/ttx_tx.h"
 #include "../models/bsd_enc.h"
+#include "../models/xds_model.h"
 extern "C" {
 #include "src/libzvbi.h"
 struct vbi_cni_entry { int16_t id; const char *country; const char *name; uint16_t cni1, cni2, cni3, cni4; };
@@ -88,6 +89,69 @@ static ExpAspect aspect_of(unsigned w) {
 	a.full = code == 0 || code == 6 || code == 7;
 	a.top = code == 2 || code == 4;
 	return a;
+}
+
+// ---------- scenario D: the XDS network name (and call letters) on caption field 2 as the only carrier ----------
+// A reception is one Channel class packet "network name" (optionally preceded by "call letters"). The station is announced when a name
+// is received for the second time in a row; the same station confirmed again (after a single deviating name or call letters packet)
+// is neither announced as a network change nor does it clear the cache; a change to another station is announced exactly once and
+// drops the cached pages of the old one.
+template <typename W>
+static int scenario_xds(Src &s, Report &r, vbi_decoder *dec, std::vector<Ev> &evs, double &t, W witness, unsigned nfr, bool *nt) {
+	auto send_pair = [&](unsigned a, unsigned b) {
+		vbi_sliced sl[2]; memset(sl, 0, sizeof sl);
+		sl[0].id = VBI_SLICED_CAPTION_525; sl[0].line = 21; sl[0].data[0] = 0x80; sl[0].data[1] = 0x80;
+		sl[1].id = VBI_SLICED_CAPTION_525; sl[1].line = 284; sl[1].data[0] = enc::par((uint8_t) a); sl[1].data[1] = enc::par((uint8_t) b);
+		vbi_decode(dec, sl, 2, t); t += 0.04;
+	};
+	auto send_packet = [&](unsigned type, const std::string &v) {
+		std::vector<uint8_t> data(v.begin(), v.end());
+		send_pair(0x05, type);
+		for (size_t i = 0; i < data.size(); i += 2) send_pair(data[i], i + 1 < data.size() ? data[i + 1] : 0);
+		send_pair(0x0F, xds::checksum(2, type, data));
+	};
+	static const char *NAMES[] = {"PUBLIC BROADCASTING", "NEWS CHANNEL NINE", "WEATHER", "MOVIES AND MORE", "KIDS", "THE SPORTS NETWORK"};
+	static const char *CALLS[] = {"KQED", "WNET", "KABC", "WGBH", "KTVU", "WPIX"};
+	unsigned ia = s.pick(6), ib = (ia + 1 + s.pick(5)) % 6;
+	bool with_call = s.chance(1, 2);
+	std::string nameA = NAMES[ia], nameB = NAMES[ib], callA = CALLS[ia], callB = CALLS[ib];
+	r.say("scenario D: XDS network name; stations \"%s\" / \"%s\"%s\n", nameA.c_str(), nameB.c_str(), with_call ? " with call letters" : "");
+	std::string last_name; unsigned run = 0; int announced = -1;	// station announced so far: -1 none, 0 A, 1 B
+	bool witness_cached = vbi_is_cached(dec, 0x100, 0);
+	unsigned rx = 0, nrx = 4 + nfr / 6;
+	int rc = 0;
+	while (rx < nrx && !rc) {
+		unsigned which = s.pick(8); int st; bool oneoff = false;
+		switch (which) { case 0: case 1: case 2: case 3: st = 0; break; case 4: case 5: st = 1; break; default: st = announced < 0 ? 0 : announced; oneoff = true; break; }
+		if (oneoff && (announced < 0 || run < 2 || last_name != (announced ? nameB : nameA))) oneoff = false;	// a deviation is isolated only between identical receptions of the announced station
+		unsigned len = oneoff ? 1 : 1 + s.pick(5);
+		for (unsigned k = 0; k < len && rx < nrx && !rc; ++k, ++rx) {
+			std::string name = st ? nameB : nameA, call = st ? callB : callA;
+			bool dev_call = false;
+			if (oneoff) { if (with_call && s.chance(1, 3)) { dev_call = true; call = "KX"; call += (char) ('A' + rx % 26); } else { char b[16]; snprintf(b, sizeof b, "GLITCH %u", rx); name = b; } }
+			size_t ev0 = evs.size();
+			if (with_call) send_packet(2, call);	// a station either transmits its call letters in every cycle or never
+			if (!dev_call) send_packet(1, name);
+			unsigned n_net = 0; for (size_t i = ev0; i < evs.size(); ++i) if (evs[i].type == VBI_EVENT_NETWORK) ++n_net;
+			unsigned exp_net = 0;
+			if (!dev_call) {
+				if (name == last_name) ++run; else { last_name = name; run = 1; }
+				if (run == 2 && !oneoff && st != announced) { exp_net = 1; if (announced >= 0) { witness_cached = false; *nt = true; } announced = st; }
+			}
+			if (oneoff) *nt = true;
+			r.say("  reception %u: %s%s\"%s\" run %u -> %u NETWORK events (expected %u), witness cached %d\n", rx, dev_call ? "call letters " : "", oneoff ? "(isolated deviation) " : "", dev_call ? call.c_str() : name.c_str(), run, n_net, exp_net, vbi_is_cached(dec, 0x100, 0));
+			if (n_net != exp_net) {
+				const char *sig = n_net < exp_net ? "C13:station-change-not-announced" : exp_net ? "C13:station-change-announced-twice" : (run >= 2 && announced == st && !oneoff) ? "C13:xds-same-station-announced-as-change" : "C13:network-event-without-change";
+				rc = r.fail(sig, "XDS reception %u (%s \"%s\", %u in a row, station %s announced before): %u NETWORK events, expected %u", rx, dev_call ? "call letters" : "network name", dev_call ? call.c_str() : name.c_str(), run, announced < 0 ? "not" : "already", n_net, exp_net);
+			} else if ((bool) vbi_is_cached(dec, 0x100, 0) != witness_cached)
+				rc = r.fail(witness_cached ? "C13:cache-cleared-without-station-change" : "C13:cache-kept-after-station-change", "XDS reception %u (network name \"%s\", %u in a row): witness page cached = %d, expected %d", rx, name.c_str(), run, vbi_is_cached(dec, 0x100, 0), witness_cached);
+			for (size_t i = ev0; i < evs.size() && !rc; ++i) if (evs[i].type == VBI_EVENT_NETWORK && exp_net) {
+				if (strcmp((const char *) evs[i].net.name, name.c_str())) rc = r.fail("C13:xds-network-name-value", "NETWORK event carries name \"%s\", transmitted \"%s\"", evs[i].net.name, name.c_str());
+			}
+			if (!rc && !witness_cached && s.chance(1, 2)) { witness(); witness_cached = vbi_is_cached(dec, 0x100, 0); if (!witness_cached) rc = r.fail("C13:page-not-cacheable-after-switch", "after the station change page 100 cannot be cached"); }
+		}
+	}
+	return rc;
 }
 
 int vf_run_case(Src &s, Report &r) {
@@ -193,7 +257,9 @@ int vf_run_case(Src &s, Report &r) {
 
 	if (scen == 0) {
 		// ---------- scenario A: one carrier, exact debounce model ----------
-		int car = (int) s.pick(3);
+		unsigned car_byte = s.u8();	// 0-239: one of the three CNI carriers (as s.pick(3) did), 240-255: the XDS network name on caption field 2
+		int car = (int) (car_byte % 3);
+		if (car_byte >= 240) { rc = scenario_xds(s, r, dec, evs, t, witness, nfr, &nt); scen = 3; goto done; }
 		unsigned cur = 0; bool have = false; int cycle = 0; bool k2u = false;
 		r.say("scenario A on %s: stations %s (id %d), %s (id %d), unknown CNI %04x\n", CN[car], A.name, A.id, B.name, B.id, unknown_cni);
 		unsigned f = 0;
@@ -315,11 +381,12 @@ int vf_run_case(Src &s, Report &r) {
 			}
 		}
 	}
+done:
 	g_ev = nullptr;
 	vbi_decoder_delete(dec);
 	if (rc) return rc;
 	r.nontrivial = nt;
-	r.cls(scen == 0 ? "scenario-A-single-carrier" : scen == 1 ? "scenario-B-multi-carrier" : "scenario-C-wss");
+	r.cls(scen == 0 ? "scenario-A-single-carrier" : scen == 1 ? "scenario-B-multi-carrier" : scen == 2 ? "scenario-C-wss" : "scenario-D-xds-network-name");
 	if (nt) r.cls("nontrivial");
 	return 0;
 }
